@@ -399,7 +399,7 @@ class MotionGen(object):
         self.steps.append(("g", text, extra or {}))
 
     # ------------------------------------------------------------------ actions
-    def act_move(self, want=None, travel=False):
+    def act_move(self, want=None, travel=False, wipe=False):
         rng = self.rng
         gh = self.ghost
         want = want or rng.choice(["in", "in", "out", "out", "out", "border"])
@@ -442,13 +442,15 @@ class MotionGen(object):
         # extrusion on the move (only when the file is not retracted, to stay in C04/C05 scope)
         if travel:
             pass
-        elif gh.ret == 0 and rng.random() < 0.55:
+        elif gh.ret == 0 and rng.random() < 0.55 and not wipe:
             wtxt, actual = self.eword(rng.choice([5, 10, 25, 40, 75]))
             if wtxt:
                 words.append(wtxt)
                 gh.e += actual
                 code = "G1"
-        elif self.useWipe and gh.ret == 0 and gh.eabs and rng.random() < 0.25:
+        elif self.useWipe and gh.ret == 0 and gh.eabs and (wipe or rng.random() < (
+                0.6 if self.excluded(gh.p["X"], gh.p["Y"]) else 0.25)):
+            # (more often from inside a region: the retraction belongs to an open episode)
             wtxt, actual = self.eword(-self.retAmount)
             if wtxt:
                 words.append(wtxt)
@@ -533,6 +535,10 @@ class MotionGen(object):
             return
         self.act_move("in", travel=True)
         self.act_retract_cycle()
+        if self.useWipe and gh.ret == 0 and self.rng.random() < 0.6:
+            # (files that retract while moving: such a move right after the swallowed recovery,
+            # still inside the region)
+            self.act_move("in", wipe=True)
         self.act_move("out", travel=True)
         for _ in range(self.rng.choice([1, 1, 2])):
             self.act_retract_cycle()
@@ -701,6 +707,10 @@ class MotionGen(object):
             choices = ["G90" if gh.abs else "G91", "G21" if not gh.inch else "G20"]
             # re-issuing the current mode is a no-op for the printer
             choices = ["G90"] if gh.abs else ["G91"]
+        if self.cfg["g90e"] and gh.eabs != gh.abs and rng.random() < 0.5:
+            # the positioning mode re-issued while the extruder's differs (M82 / M83 since):
+            # nothing for X/Y/Z, but with g90InfluencesExtruder the extruder follows again
+            choices = ["G90" if gh.abs else "G91"]
         cmd = rng.choice(choices)
         if cmd == "G90":
             gh.abs = True
